@@ -1,0 +1,72 @@
+//go:build verif
+
+package render
+
+import (
+	"github.com/deadsy/sdfx/sdf"
+	v2 "github.com/deadsy/sdfx/vec/v2"
+	"github.com/deadsy/sdfx/vec/v2i"
+	v3 "github.com/deadsy/sdfx/vec/v3"
+	"github.com/deadsy/sdfx/vec/v3i"
+)
+
+// VerifDcache3 gives access to the distance cache of the octree renderer
+// (newDcache3, evaluate, isEmpty, processCube and the half diagonal table).
+type VerifDcache3 struct{ dc *dcache3 }
+
+// VerifNewDcache3 is newDcache3.
+func VerifNewDcache3(s sdf.SDF3, origin v3.Vec, resolution float64, n uint) *VerifDcache3 {
+	return &VerifDcache3{newDcache3(s, origin, resolution, n)}
+}
+
+// Hdiag returns a copy of the half diagonal table.
+func (d *VerifDcache3) Hdiag() []float64 { return append([]float64(nil), d.dc.hdiag...) }
+
+// Evaluate is dcache3.evaluate.
+func (d *VerifDcache3) Evaluate(vi v3i.Vec) (v3.Vec, float64) { return d.dc.evaluate(vi) }
+
+// IsEmpty is dcache3.isEmpty on the cube with origin v and level n.
+func (d *VerifDcache3) IsEmpty(v v3i.Vec, n uint) bool { return d.dc.isEmpty(&cube{v, n}) }
+
+// ProcessCube is dcache3.processCube on the cube with origin v and level n.
+func (d *VerifDcache3) ProcessCube(v v3i.Vec, n uint, output sdf.Triangle3Writer) {
+	d.dc.processCube(&cube{v, n}, output)
+}
+
+// CacheLen is the number of cached distances.
+func (d *VerifDcache3) CacheLen() int { return len(d.dc.cache) }
+
+// VerifDcache2 gives access to the distance cache of the quadtree renderer.
+type VerifDcache2 struct{ dc *dcache2 }
+
+// VerifNewDcache2 is newDcache2.
+func VerifNewDcache2(s sdf.SDF2, origin v2.Vec, resolution float64, n uint) *VerifDcache2 {
+	return &VerifDcache2{newDcache2(s, origin, resolution, n)}
+}
+
+// Hdiag returns a copy of the half diagonal table.
+func (d *VerifDcache2) Hdiag() []float64 { return append([]float64(nil), d.dc.hdiag...) }
+
+// Evaluate is dcache2.evaluate.
+func (d *VerifDcache2) Evaluate(vi v2i.Vec) (v2.Vec, float64) { return d.dc.evaluate(vi) }
+
+// IsEmpty is dcache2.isEmpty on the square with origin v and level n.
+func (d *VerifDcache2) IsEmpty(v v2i.Vec, n uint) bool { return d.dc.isEmpty(&square{v, n}) }
+
+// ProcessSquare is dcache2.processSquare on the square with origin v and level n.
+func (d *VerifDcache2) ProcessSquare(v v2i.Vec, n uint, output sdf.Line2Writer) {
+	d.dc.processSquare(&square{v, n}, output)
+}
+
+// CacheLen is the number of cached distances.
+func (d *VerifDcache2) CacheLen() int { return len(d.dc.cache) }
+
+// VerifMarchingCubesOctree is marchingCubesOctree (closes the output).
+func VerifMarchingCubesOctree(s sdf.SDF3, resolution float64, output sdf.Triangle3Writer) {
+	marchingCubesOctree(s, resolution, output)
+}
+
+// VerifMarchingSquaresQuadtree is marchingSquaresQuadtree (closes the output).
+func VerifMarchingSquaresQuadtree(s sdf.SDF2, resolution float64, output sdf.Line2Writer) {
+	marchingSquaresQuadtree(s, resolution, output)
+}
